@@ -2,7 +2,11 @@ package main
 
 // sub-harness `config` (C15): configuration sources merge in loader order; adding a source drops nothing.
 //
-//	scenario := ["CF" | "OA" n (pathhex node)^n] opt* ("IN" opt*)* "|" path*
+//	scenario := ["EV" n (namehex value)^n] ["CF" | "OA" n (pathhex node)^n] opt* ("IN" opt*)* "|" path*
+//	            `EV` = the ENVIRONMENT of the process holds these n variables for the duration of the scenario (value = hex of
+//	            the text, or `*` = whatever the process has under that name — PATH, HOME, … exist anyway —, "x" when it has
+//	            none).  The configuration is determined by the loaders alone: the model has no environment, its driver drops
+//	            the prefix; oracle `config-env-leak` (see cfgRunEnv).
 //	            `OA` = the command line of the PROCESS holds these n `--app.config=path=value` arguments (os.Args is set for
 //	            the duration of the scenario): they are what the container's own default ArgsLoader(os.Args) reads
 //	opt      := "SL" n loader^n   app.SetConfigLoader(…)        | "AL" n loader^n   app.AddConfigLoader(…)
@@ -647,6 +651,14 @@ type cfgRealOpt struct {
 
 func cfgRun(env *cfgEnv, opts []copt, paths []string, tags []string, w *hx.Writer) {
 	c := hx.Case{Scn: cfgScn(opts, paths), Tags: tags}
+	obs, gots, panText := cfgExec(env, opts, paths)
+	c.Obs = strings.Join(obs, " / ")
+	c.Oracle = cfgOracle(opts, paths, gots, obs, panText)
+	w.Put(c)
+}
+
+// cfgExec: one line on the real code: the observation of every phase, what was read, the text of a panic
+func cfgExec(env *cfgEnv, opts []copt, paths []string) (obs []string, gots [][]string, panText string) {
 	env.objs, env.paths = map[int]configure.Loader{}, map[int]string{}
 	bare, phases := cfgSplit(opts)
 	if cl := cfgCmdline(opts); cl != nil {
@@ -692,9 +704,6 @@ func cfgRun(env *cfgEnv, opts []copt, paths []string, tags []string, w *hx.Write
 	}
 	var a *app.App
 	var cf configure.Configure
-	var obs []string
-	var gots [][]string
-	panText := ""
 	for k := range phases {
 		var err error
 		got := make([]string, len(paths))
@@ -746,9 +755,7 @@ func cfgRun(env *cfgEnv, opts []copt, paths []string, tags []string, w *hx.Write
 			break
 		}
 	}
-	c.Obs = strings.Join(obs, " / ")
-	c.Oracle = cfgOracle(opts, paths, gots, obs, panText)
-	w.Put(c)
+	return obs, gots, panText
 }
 
 // ---------------------------------------------------------------- oracle (property wording, on the real observation)
@@ -1085,15 +1092,389 @@ func cfgOraclePhase(seq []*cloader, beforeAdd map[int]bool, views []*cfgDocView,
 	return views, viewLoader, "", false
 }
 
+// ---------------------------------------------------------------- the process environment (`EV`, seventh round)
+
+// one variable of an `EV` prefix.  keep = the value token `*`: the variable is left as the process has it (PATH, HOME, …
+// exist anyway) and set to "x" for the duration of the scenario when the process has none
+type cfgVar struct {
+	name, val string
+	keep      bool
+}
+
+func cfgEnvToks(ev []cfgVar) string {
+	t := []string{"EV", strconv.Itoa(len(ev))}
+	for _, v := range ev {
+		if v.keep {
+			t = append(t, hx.Hex(v.name), "*")
+		} else {
+			t = append(t, hx.Hex(v.name), hx.Hex(v.val))
+		}
+	}
+	return strings.Join(t, " ")
+}
+
+// cfgParseLine: a scenario line with an optional leading `EV` prefix
+func cfgParseLine(scn string) (ev []cfgVar, opts []copt, paths []string, ok bool) {
+	if strings.HasPrefix(scn, "EV ") {
+		f := strings.Split(scn, " ")
+		n, err := strconv.Atoi(f[1])
+		if err != nil || n < 0 || n > 64 || len(f) < 2+2*n {
+			return nil, nil, nil, false
+		}
+		for i := 0; i < n; i++ {
+			name, err := hx.UnHex(f[2+2*i])
+			if err != nil || name == "" || strings.ContainsAny(name, "=\x00") {
+				return nil, nil, nil, false
+			}
+			v := cfgVar{name: name}
+			if f[3+2*i] == "*" {
+				v.keep = true
+			} else if v.val, err = hx.UnHex(f[3+2*i]); err != nil || strings.ContainsRune(v.val, 0) {
+				return nil, nil, nil, false
+			}
+			ev = append(ev, v)
+		}
+		scn = strings.Join(f[2+2*n:], " ")
+		if ev == nil {
+			ev = []cfgVar{}
+		}
+	}
+	opts, paths, ok = cfgParse(scn)
+	return ev, opts, paths, ok
+}
+
+// cfgWithEnv runs f with the variables of ev present (set) or absent (!set) in the process environment and puts the
+// environment back as it was, whatever f does.  The config sub-harness runs its cases one after the other.
+func cfgWithEnv(ev []cfgVar, set bool, f func()) {
+	type saved struct {
+		name, val string
+		had       bool
+	}
+	var sv []saved
+	for _, v := range ev {
+		old, had := os.LookupEnv(v.name)
+		sv = append(sv, saved{v.name, old, had})
+	}
+	defer func() {
+		for i := len(sv) - 1; i >= 0; i-- {
+			if sv[i].had {
+				os.Setenv(sv[i].name, sv[i].val)
+			} else {
+				os.Unsetenv(sv[i].name)
+			}
+		}
+	}()
+	for i, v := range ev {
+		switch {
+		case !set:
+			os.Unsetenv(v.name)
+		case v.keep && sv[i].had:
+		case v.keep:
+			os.Setenv(v.name, "x")
+		default:
+			os.Setenv(v.name, v.val)
+		}
+	}
+	f()
+}
+
+// cfgRunEnv: a line under an `EV` prefix.  The real code runs twice: with the variables in the environment (that run is
+// the observation the model is compared with, and the one all oracles of the property are evaluated on) and with the
+// same variables absent.  The effective configuration is the merge of the loader outputs — the environment is no
+// loader —, so both runs must read the same thing at every path after every Initialize (signature config-env-leak).
+func cfgRunEnv(env *cfgEnv, ev []cfgVar, opts []copt, paths []string, tags []string, w *hx.Writer) {
+	c := hx.Case{Scn: cfgEnvToks(ev) + " " + cfgScn(opts, paths), Tags: tags}
+	var obs, obs0 []string
+	var gots, gots0 [][]string
+	var panText string
+	cfgWithEnv(ev, true, func() { obs, gots, panText = cfgExec(env, opts, paths) })
+	cfgWithEnv(ev, false, func() { obs0, gots0, _ = cfgExec(env, opts, paths) })
+	c.Obs = strings.Join(obs, " / ")
+	if c.Obs != strings.Join(obs0, " / ") {
+		var names []string
+		for _, v := range ev {
+			names = append(names, v.name)
+		}
+		detail := fmt.Sprintf("observed %s with them, %s without", c.Obs, strings.Join(obs0, " / "))
+	find:
+		for k := range gots {
+			if k >= len(gots0) || obs[k] == "err" || obs[k] == "panic" || obs0[k] == "err" || obs0[k] == "panic" {
+				break
+			}
+			for i, p := range paths {
+				if gots[k][i] != gots0[k][i] {
+					detail = fmt.Sprintf("path %q shows %s with them, %s without (after Initialize #%d)", p, gots[k][i], gots0[k][i], k+1)
+					break find
+				}
+			}
+		}
+		c.Oracle = fmt.Sprintf("FAIL config-env-leak the loaders are the same, the environment variables %s change what is read: %s", strings.Join(names, ","), detail)
+	} else {
+		c.Oracle = cfgOracle(opts, paths, gots, obs, panText)
+	}
+	w.Put(c)
+}
+
+// the ordinary variables: names that exist in most process environments
+var cfgOrdinaryEnv = map[string]bool{"PATH": true, "HOME": true, "USER": true, "LANG": true, "SHELL": true, "TERM": true, "PWD": true,
+	"TMPDIR": true, "HOSTNAME": true, "EDITOR": true, "JAVA_HOME": true, "LOGNAME": true}
+
+// words that are ordinary key names of a configuration file and, upper-cased, ordinary environment variables or parts
+// of one (java.home), plus two hyphenated keys (`-` becomes `_` in a variable name)
+var cfgEnvWords = []string{"path", "home", "user", "lang", "shell", "term", "pwd", "java", "tmpdir", "hostname", "editor", "logname", "min-version", "data-dir"}
+
+// the name under which a key path would be looked up in the environment by the usual convention: upper case, `.` and
+// `-` replaced by `_`
+func cfgEnvName(path string) string {
+	return strings.ToUpper(strings.NewReplacer(".", "_", "-", "_").Replace(path))
+}
+
+// cfgRename renames key segments in every document, argument path and query path of a line (same spelling style:
+// lower / UPPER / Capitalised); f is injective and leaves its own results alone, loaders shared by reference are
+// renamed once
+func cfgRename(opts []copt, paths []string, f map[string]string) []string {
+	seg := func(k string) string {
+		to, ok := f[strings.ToLower(k)]
+		switch {
+		case !ok:
+			return k
+		case k == strings.ToLower(k):
+			return to
+		case k == strings.ToUpper(k):
+			return strings.ToUpper(to)
+		}
+		return strings.ToUpper(to[:1]) + to[1:]
+	}
+	dotted := func(p string) string {
+		if p == "" {
+			return p
+		}
+		segs := strings.Split(p, ".")
+		for i := range segs {
+			segs[i] = seg(segs[i])
+		}
+		return strings.Join(segs, ".")
+	}
+	doneNode := map[*cnode]bool{}
+	var node func(n *cnode)
+	node = func(n *cnode) {
+		if n == nil || doneNode[n] {
+			return
+		}
+		doneNode[n] = true
+		for i := range n.keys {
+			n.keys[i] = seg(n.keys[i])
+			node(n.vals[i])
+		}
+		for _, e := range n.elems {
+			node(e)
+		}
+	}
+	doneLoader := map[*cloader]bool{}
+	for _, o := range opts {
+		for _, l := range o.ls {
+			if doneLoader[l] {
+				continue
+			}
+			doneLoader[l] = true
+			node(l.doc)
+			for i := range l.pairs { // (renaming is idempotent: pairs shared with a repeated loader may be visited twice)
+				l.pairs[i].path = dotted(l.pairs[i].path)
+				node(l.pairs[i].val)
+			}
+		}
+	}
+	out := make([]string, len(paths))
+	for i, p := range paths {
+		out[i] = dotted(p)
+	}
+	return out
+}
+
+// cfgGenEnv: a line of the generators above (an App with the default Configure: no bare Configure, no SetConfigure),
+// with or without a process command line, some of its six key names renamed to ordinary words (path, home, user, lang,
+// java, …, min-version), under an `EV` prefix of 1-5 variables whose names are the upper-cased paths of keys and
+// sections of the line's own documents: names nobody else uses (A_B, K, JAVA_HOME_MIN_VERSION, M2: set to a value of
+// their own) and ordinary ones (PATH, HOME, JAVA_HOME, …: `*`), sometimes one that collides with nothing.
+func cfgGenEnv(r *hx.Rng) ([]cfgVar, []copt, []string, []string) {
+	var opts []copt
+	var paths, tags []string
+	for try := 0; ; try++ {
+		rr := r.Fork()
+		if rr.P(1, 4) {
+			opts, paths, tags = cfgGenMulti(rr)
+		} else {
+			opts, paths, tags = cfgGenCase(rr)
+		}
+		bad := false
+		for _, o := range opts {
+			if o.op == "CF" || (o.op == "SC" && try < 20) {
+				bad = true
+			}
+		}
+		if !bad {
+			break
+		}
+	}
+	opts, paths, tags = cfgAddCmdline(opts, paths, tags)
+	// rename
+	ren := map[string]string{}
+	perm := r.Perm(len(cfgEnvWords))
+	for i, name := range cfgNames {
+		if r.P(3, 5) {
+			ren[name] = cfgEnvWords[perm[i]]
+		}
+	}
+	if r.P(1, 3) { // two names that form an ordinary variable together: java.home, user.home; a hyphenated key below path
+		pair := [][2]string{{"java", "home"}, {"path", "data-dir"}, {"user", "home"}}[r.Intn(3)]
+		for k, v := range ren {
+			if v == pair[0] || v == pair[1] {
+				delete(ren, k)
+			}
+		}
+		ren["a"], ren["b"] = pair[0], pair[1]
+	}
+	paths = cfgRename(opts, paths, ren)
+	// the key paths of the line, sections and leaves
+	isMap := map[string]bool{}
+	var all []string
+	seen := map[string]bool{}
+	add := func(v *cfgDocView) {
+		if v == nil {
+			return
+		}
+		var ks []string
+		for p := range v.leaf {
+			ks = append(ks, p)
+		}
+		for p := range v.isMap {
+			if p != "" {
+				ks = append(ks, p)
+				isMap[p] = true
+			}
+		}
+		sort.Strings(ks)
+		for _, p := range ks {
+			if !seen[p] {
+				seen[p] = true
+				all = append(all, p)
+			}
+		}
+	}
+	for _, o := range opts {
+		for _, l := range o.ls {
+			add(cfgViewOfLoader(l))
+		}
+	}
+	var ev []cfgVar
+	used := map[string]bool{}
+	put := func(path string, k int) {
+		name := cfgEnvName(path)
+		if name == "" || used[name] || strings.ContainsAny(name, "= ") {
+			return
+		}
+		used[name] = true
+		v := cfgVar{name: name, val: "env" + strconv.Itoa(k)}
+		switch {
+		case cfgOrdinaryEnv[name]:
+			v.keep = true
+		case r.P(1, 10):
+			v.val = []string{"", "0", "true", "/usr/local/bin:/usr/bin"}[r.Intn(4)]
+		}
+		ev = append(ev, v)
+	}
+	if len(all) > 0 {
+		for k := 1 + r.Intn(4); k > 0; k-- {
+			p := all[r.Intn(len(all))]
+			if i := strings.LastIndexByte(p, '.'); i > 0 && r.P(1, 3) {
+				p = p[:i] // the section above it
+			}
+			put(p, k)
+		}
+	}
+	for _, p := range all { // the ordinary names among the top-level keys and two-level sections: mostly taken
+		if cfgOrdinaryEnv[cfgEnvName(p)] && r.P(3, 4) {
+			put(p, 0)
+		}
+	}
+	if len(ev) == 0 || r.P(1, 4) {
+		ev = append(ev, cfgVar{name: "IOCVERIF_UNRELATED", val: "1"})
+	}
+	tags = append(append([]string{}, tags...), "env")
+	for _, v := range ev {
+		if v.keep {
+			tags = append(tags, "env-ordinary")
+		} else if v.name != "IOCVERIF_UNRELATED" {
+			tags = append(tags, "env-own")
+		}
+		for p := range seen {
+			if cfgEnvName(p) == v.name {
+				if isMap[p] {
+					tags = append(tags, "env-on-section")
+				} else {
+					tags = append(tags, "env-on-leaf")
+				}
+			}
+		}
+	}
+	if len(ren) > 0 {
+		tags = append(tags, "env-ordinary-words")
+	}
+	sort.Strings(tags)
+	var uniq []string
+	for j, t := range tags {
+		if j == 0 || t != tags[j-1] {
+			uniq = append(uniq, t)
+		}
+	}
+	return ev, opts, paths, uniq
+}
+
+// cfgEnvCorpus: hand-written lines under an environment
+func cfgEnvCorpus() []string {
+	h := hx.Hex
+	P := func(s string) string { return "P" + h(s) }
+	// file {path: {data: /var/lib/demo, logs: /var/log/demo}, lang: {default: en}, m1: 1}
+	file := fmt.Sprintf("M 3 %s M 2 %s %s %s %s %s M 1 %s %s %s P31", h("path"), h("data"), P("/var/lib/demo"), h("logs"), P("/var/log/demo"),
+		h("lang"), h("default"), P("en"), h("m1"))
+	// raw {lang: {default: de}, java: {home: {required: true, min-version: 17}}, server: {port: 8080}, m2: 2}
+	raw := fmt.Sprintf("M 4 %s M 1 %s %s %s M 1 %s M 2 %s %s %s %s %s M 1 %s %s %s P32", h("lang"), h("default"), P("de"),
+		h("java"), h("home"), h("required"), P("true"), h("min-version"), P("17"), h("server"), h("port"), P("8080"), h("m2"))
+	args := "a 2 " + h("path.logs") + " " + P("/mnt/logs") + " " + h("m3") + " P33"
+	q := " | " + strings.Join([]string{h("path.data"), h("path.logs"), h("lang.default"), h("java.home.required"), h("java.home.min-version"),
+		h("server.port"), h("path"), h("lang"), h("java.home"), h("java"), h("server"), h("m1"), h("m2"), h("m3"), "-"}, " ")
+	ord := "EV 3 " + h("PATH") + " * " + h("LANG") + " * " + h("JAVA_HOME") + " *"
+	own := "EV 3 " + h("SERVER_PORT") + " " + h("9090") + " " + h("JAVA_HOME_MIN_VERSION") + " " + h("21") + " " + h("M2") + " " + h("env")
+	return []string{
+		// a config file, a raw document and an argument loader next to PATH, LANG and JAVA_HOME
+		ord + " SF f " + file + " AL 1 r " + raw + " AL 1 " + args + q,
+		ord + " SL 2 r " + raw + " " + args + q,
+		// variables named after leaves (SERVER_PORT for server.port, `-` → `_`) and after a marker key
+		own + " SF f " + file + " AL 1 r " + raw + " AL 1 " + args + q,
+		own + " SL 1 r " + raw + q,
+		// the process command line (the default ArgsLoader) and the environment name the same key
+		"EV 2 " + h("SERVER_PORT") + " " + h("9090") + " " + h("SERVER") + " " + h("s") + " OA 2 " + h("server.port") + " " + P("1111") + " " + h("m0") + " P30 AL 1 r " + raw + q,
+		// a history: the environment is there at every Initialize
+		"EV 2 " + h("LANG") + " * " + h("LANG_DEFAULT") + " " + h("fr") + " SL 1 r " + raw + " IN SF f " + file + " IN" + q,
+		// a variable that collides with nothing; an empty prefix
+		"EV 1 " + h("IOCVERIF_UNRELATED") + " " + h("1") + " SL 1 r " + raw + q,
+		"EV 0 SL 1 r " + raw + q,
+	}
+}
+
 // ---------------------------------------------------------------- replay / corpus
 
 func cfgReplay(scn string, w *hx.Writer) {
-	opts, paths, ok := cfgParse(scn)
+	ev, opts, paths, ok := cfgParseLine(scn)
 	if !ok {
 		return
 	}
 	env := newCfgEnv()
 	defer env.close()
+	if ev != nil {
+		cfgRunEnv(env, ev, opts, paths, []string{"replay"}, w)
+		return
+	}
 	cfgRun(env, opts, paths, []string{"replay"}, w)
 }
 
@@ -1170,6 +1551,13 @@ func cfgCorpus(w *hx.Writer) {
 			panic("bad corpus line: " + scn)
 		}
 		cfgRun(env, opts, paths, []string{"corpus", "multi-init"}, w)
+	}
+	for _, scn := range cfgEnvCorpus() {
+		ev, opts, paths, ok := cfgParseLine(scn)
+		if !ok || ev == nil {
+			panic("bad corpus line: " + scn)
+		}
+		cfgRunEnv(env, ev, opts, paths, []string{"corpus", "env"}, w)
 	}
 }
 
@@ -2323,5 +2711,12 @@ func cfgGen(rng *hx.Rng, n int, tier string, w *hx.Writer) {
 			env.close()
 			env = newCfgEnv()
 		}
+	}
+	// seventh round: lines under an environment (`EV`), from fresh forks after all lines above
+	env.close()
+	env = newCfgEnv()
+	for i := 0; i < (n+19)/20; i++ {
+		ev, opts, paths, tags := cfgGenEnv(rng.Fork())
+		cfgRunEnv(env, ev, opts, paths, tags, w)
 	}
 }
